@@ -10,5 +10,5 @@ CONSTANTS
   Regimes = {}
   MaxObj = 0
   IdxRule = "clamp"
-INVARIANTS P_InRange P_Retrievable P_Neighbourhood P_Neighbourhood3 P_ContentOnce P_NbhdSound P_Reuse D_Nb D_Idx D_Content D_Nbhd
+INVARIANTS P_InRange P_Retrievable P_Neighbourhood P_Neighbourhood3 P_ContentOnce P_NbhdSound P_Reuse P_StructRetrievable D_Nb D_Idx D_Content D_Nbhd
 CHECK_DEADLOCK FALSE
